@@ -105,14 +105,12 @@ def classify(ctx: HandlerContext) -> Classification:
     if not sql_parts:
         return Classification("ask", description="duckdb (interactive)")
 
-    # Combine SQL parts
-    sql = " ".join(sql_parts)
+    # Each argument is run as a separate command (SQL or a dot-command): judge each on its own
+    results = [is_readonly_sql(part, extra_write=_DUCKDB_WRITE) for part in sql_parts]
 
-    # Analyze SQL
-    readonly = is_readonly_sql(sql, extra_write=_DUCKDB_WRITE)
-    if readonly is True:
+    if all(r is True for r in results):
         return Classification("allow", description="duckdb (read-only query)")
-    if readonly is False:
+    if any(r is False for r in results):
         return Classification("ask", description="duckdb (write query)")
     # Unknown - ask
     return Classification("ask", description="duckdb (unknown query)")
